@@ -31,7 +31,7 @@ class SrcLoc:
     def __init__(self, mir_text):
         tb = open(os.path.join(REPO, "abra_core", "src", "translate_bytecode.rs")).read()
         asm = open(os.path.join(REPO, "abra_core", "src", "assembly.rs")).read()
-        self.sf = {n: i for i, n in enumerate(struct_fields(tb.replace("pub(crate) struct", "pub struct"), "TranslatorState"))}
+        self.sf = {n: i for i, n in enumerate(struct_fields(tb, "TranslatorState"))}
         for need in ("lines", "filename_table", "lineno_table", "function_name_table"):
             if need not in self.sf:
                 raise Unknown("TranslatorState has no field %s" % need)
